@@ -388,8 +388,15 @@ def run_job(unit, job, cpath, workdir, tier):
     # vacuity / sanity guards -------------------------------------------------
     stat = set(o['status'] for o in r.obligations)
     if stat - {'SUCCESS', 'FAILURE'}:
-        r.reason = 'obligation with status %s' % sorted(stat - {'SUCCESS', 'FAILURE'})
-        return r
+        # an obligation cbmc left undetermined decides nothing; but a FAILURE it reports next to it is still a concrete counterexample
+        # (seen with a write past a buffer: the obligations behind the corrupted pointer come back UNKNOWN)
+        odd = [o for o in r.obligations if o['status'] not in ('SUCCESS', 'FAILURE')]
+        definite = [o for o in r.obligations if o['status'] == 'FAILURE' and o['cls'] != 'reach']
+        if not definite or any(o['cls'] == 'reach' for o in odd):
+            r.reason = 'obligation with status %s' % sorted(stat - {'SUCCESS', 'FAILURE'})
+            return r
+        r.notes = getattr(r, 'notes', []) + ['%d obligation(s) left undetermined by cbmc (status %s), not counted as discharged: %s'
+                                             % (len(odd), sorted(stat - {'SUCCESS', 'FAILURE'}), ', '.join(o['name'] for o in odd[:6]))]
     real = [o for o in r.obligations if o['cls'] != 'reach']
     if len(real) < job.min_obligations:
         r.reason = 'only %d obligations generated (< %d): vacuous' % (len(real), job.min_obligations)
